@@ -7,6 +7,7 @@ import ast
 from ..astutil import norm
 from ..cmdeval import *
 from ..cmdeval import _F
+from ..images import same_value
 from ..rt import *
 from ..values import *
 from spec import cdb as refcdb
@@ -170,7 +171,6 @@ def check(prog, run):
         for p in ps:
             if p.returned:
                 b, again, same_obj = p.value
-                from ..images import same_value
                 if not same_value(b, same_obj):
                     run.violation("marshalling-repeatable", case["name"],
                                   "marshalling the very same dictionary a second time gives different bytes (the first call changed "
@@ -272,13 +272,29 @@ def check(prog, run):
                         kw[n] = pick[1]()
                     return I.instantiate(con.cls, [con.opcode], kw, None, _F())
                 a = build(ca, ea)
-                built = [e for e in I.events if e["kind"] == "build_cdb"][-1]["kwargs"]
-                cdb_a = I.get_attr(a, "cdb", None, _F())
+                built = [e for e in I.events if e["kind"] == "build_cdb"]
+                built = built[-1]["kwargs"] if built else None
+                view_a = pub_view(I, a)
+                cdb_a = view_a["cdb"]
+                image_a = {n: (list(v.cells) if isinstance(v, Buf) and v.cells is not None else None) for n, v in view_a.items()}
                 b_after = build(cb, eb)
-                I.event("b-after-a", cdb=I.get_attr(b_after, "cdb", None, _F()), dataout=b_after.attrs.get("_dataout"),
-                        datain=b_after.attrs.get("_datain"), a=a)
+                view_b = pub_view(I, b_after)
+                # what the first command reads as, now that another one exists
+                later_a = pub_view(I, a)
+                changed = []
+                for n in ("cdb", "dataout", "datain"):
+                    if later_a[n] is not view_a[n]:
+                        changed.append("%s.%s is a different object once a %s exists" % (ca.cls.name, n, cb.cls.name))
+                    elif isinstance(later_a[n], Buf) and later_a[n].cells is not None and image_a[n] is not None \
+                            and not all(same_value(x, y) for x, y in zip(later_a[n].cells, image_a[n])) :
+                        changed.append("%s.%s reads differently once a %s exists" % (ca.cls.name, n, cb.cls.name))
+                    elif isinstance(later_a[n], Buf) and image_a[n] is not None and later_a[n].cells is not None \
+                            and len(later_a[n].cells) != len(image_a[n]):
+                        changed.append("%s.%s has another length once a %s exists" % (ca.cls.name, n, cb.cls.name))
+                I.event("b-after-a", cdb=view_b["cdb"], dataout=view_b["dataout"], datain=view_b["datain"], a=a, view_a=view_a,
+                        changed=changed)
                 dec = I.call(I.get_attr(ca.cls, "unmarshall_cdb", None, _F()), [cdb_a], {}, None, _F())
-                enc = I.call(I.get_attr(ca.cls, "marshall_cdb", None, _F()), [dict(built)], {}, None, _F())
+                enc = I.call(I.get_attr(ca.cls, "marshall_cdb", None, _F()), [dict(built)], {}, None, _F()) if built is not None else None
                 return dec, built, enc, cdb_a
             try:
                 ps = I.explore(th, max_paths=64)
@@ -288,19 +304,19 @@ def check(prog, run):
                 if not p.returned:
                     continue
                 # (i) B built right after A is the B that is built alone; (ii) the two objects share no buffer
-                from ..images import same_value
                 for ev in p.events:
                     if ev["kind"] == "b-after-a":
-                        alone = cb.inst
-                        if not same_value(ev["cdb"], alone.attrs.get("_cdb")):
-                            hist.append((ka.split(":")[1], kb.split(":")[1], "cdb %r instead of %r" % (ev["cdb"], alone.attrs.get("_cdb"))))
-                        for an in ("_dataout", "_datain", "_cdb"):
-                            if isinstance(ev["a"].attrs.get(an), Buf) and any(ev["a"].attrs.get(an) is x for x in (ev["dataout"], ev["datain"], ev["cdb"])):
-                                hist.append((ka.split(":")[1], kb.split(":")[1], "the two commands share the buffer object %s" % an))
+                        if not same_value(ev["cdb"], cb.pub.get("cdb")):
+                            hist.append((ka.split(":")[1], kb.split(":")[1], "cdb %r instead of %r" % (ev["cdb"], cb.pub.get("cdb"))))
+                        for an in ("dataout", "datain", "cdb"):
+                            if isinstance(ev["view_a"].get(an), Buf) and any(ev["view_a"].get(an) is x for x in (ev["dataout"], ev["datain"], ev["cdb"])):
+                                hist.append((ka.split(":")[1], kb.split(":")[1], "the two commands share the buffer object .%s" % an))
+                        for what in ev["changed"]:
+                            hist.append((ka.split(":")[1], kb.split(":")[1], what))
                 dec, built, enc, cdb_a = p.value
                 table = ca.cls.lookup("_cdb_bits")[0]
                 same_keys = isinstance(dec, dict) and set(dec.keys()) == set(table.keys())
-                same_len = isinstance(enc, Buf) and isinstance(cdb_a, Buf) and enc.cells is not None and cdb_a.cells is not None and len(enc.cells) == len(cdb_a.cells)
+                same_len = built is None or (isinstance(enc, Buf) and isinstance(cdb_a, Buf) and enc.cells is not None and cdb_a.cells is not None and len(enc.cells) == len(cdb_a.cells))
                 if same_keys and same_len:
                     pass
                 else:
